@@ -122,7 +122,42 @@ theorem repl_eq_sequential (fuel : Nat) (lines : List String) :
   rw [h1, ← h2, t1, t2]
   exact ⟨rfl, rfl, rfl⟩
 
+/-! ## splitting a form across lines -/
+
+/-- SPLITTING IS A NEWLINE. Breaking a line in two at a point where the text entered so far is
+not closed (both halves non-empty) submits the same groups as entering the line unbroken with a
+newline at that point — so a form split across lines differs from the unsplit form only in the
+blank between two of its tokens (a newline for whatever was there); empty lines do not count at
+all (`repl_empty_line_ignored`). -/
+theorem split_is_newline (pre ls : List String) (x y : String)
+    (hx : x.isEmpty = false) (hy : y.isEmpty = false)
+    (hc : Bracket.closed (unfinished pre ++ x).toList = false) :
+    groups (pre ++ x :: y :: ls) = groups (pre ++ (x ++ "\n" ++ y) :: ls) ∧
+    unfinished (pre ++ x :: y :: ls) = unfinished (pre ++ (x ++ "\n" ++ y) :: ls) :=
+  groups_split pre ls x y hx hy hc
+
+/-- SPLIT INVARIANCE (located form). Two sessions whose groups are, one by one, texts with the
+same tokens at the same locations — in particular two sessions with the same groups, e.g.
+differing in empty lines only — end in the same interpreter state with the same transcript and
+the same error messages. (That the transcript does not depend on the token LOCATIONS either —
+which change when a line break replaces a blank — is not proved: see the final report; `ReplOut`
+carries no locations, so this needs exactly that `evalText`'s value/error kind is a function of
+the token list alone.) -/
+theorem repl_split_invariance (fuel : Nat) (lines₁ lines₂ : List String)
+    (h : SameLocTokens (groups lines₁) (groups lines₂)) :
+    (replRun fuel lines₁).1.st = (replRun fuel lines₂).1.st ∧
+    transcript (replRun fuel lines₁).2 = transcript (replRun fuel lines₂).2 ∧
+    errors (replRun fuel lines₁).2 = errors (replRun fuel lines₂).2 := by
+  obtain ⟨a1, a2, a3⟩ := repl_eq_sequential fuel lines₁
+  obtain ⟨b1, b2, b3⟩ := repl_eq_sequential fuel lines₂
+  rw [a1, a2, a3, b1, b2, b3, session_congr fuel _ _ _ h]
+  exact ⟨rfl, rfl, rfl⟩
+
 section Example
+/-- breaking `(define (f x) (* x 2))` after `(define (f x)` -/
+example : groups ["(define (f x)", "  (* x 2))", "(f 21)"] = groups ["(define (f x)\n  (* x 2))", "(f 21)"] :=
+  (split_is_newline [] ["(f 21)"] "(define (f x)" "  (* x 2))" (by decide) (by decide) (by decide)).1
+
 /-- `(define (f x)` / `` / `  (* x 2))` / `(f 21)`: two groups; the empty line is dropped -/
 example : groups ["(define (f x)", "", "  (* x 2))", "(f 21)"] = ["(define (f x)\n  (* x 2))", "(f 21)"] := by
   decide
